@@ -632,6 +632,8 @@ def snapshot(schd):
         snap["db_pool"] = sorted(
             [int(c), n, json.loads(f), s, bool(h)] for c, n, f, s, h in
             con.execute("SELECT cycle, name, flow_nums, status, is_held FROM task_pool"))
+        snap["db_states"] = sorted([int(c), n, json.loads(f), st] for c, n, f, st in
+                                   con.execute("SELECT cycle, name, flow_nums, status FROM task_states"))
         snap["bcast_db"] = sorted([p_, n_, k_, v_] for p_, n_, k_, v_ in
                                   con.execute("SELECT point, namespace, key, value FROM broadcast_states"))
         con.close()
